@@ -539,6 +539,13 @@ pub fn crash_ttl_ops() -> Vec<Op> {
     ]
 }
 
+/// TTL replacement landing on a *lower* block than the generation it replaces (best-fit
+/// reuse of a freed hole), then a crash and a reopen after the expiry.
+pub fn crash_ttl_reuse_ops() -> Vec<Op> {
+    let a = 0u8;
+    vec![ins(a, V_X), ins(a, V_Y), ins_ttl(a, V_X, 1, 0), Op::Flush, Op::Advance(3)]
+}
+
 pub fn crash_edge_ops() -> Vec<Op> {
     let a = 0u8;
     let b = 1u8;
@@ -568,6 +575,8 @@ pub fn crash_suites(thorough: bool) -> Vec<Suite> {
     v.push(crash_suite("crash-edge-v1", disk(1, true, false), edge_tables(), crash_edge_ops(), d(4, 5)));
     v.push(crash_suite("crash-edge-v2", disk(2, true, false), edge_tables(), crash_edge_ops(), d(3, 4)));
     v.push(crash_suite("crash-small-v3", small_disk(3, 5), crash_tables(3), crash_core_ops(), d(4, 6)));
+    v.push(crash_suite("crash-ttl-reuse-v3", disk(3, true, true), crash_tables(3), crash_ttl_reuse_ops(), d(7, 8)));
+    v.push(crash_suite("crash-ttl-reuse-v2", disk(2, true, true), crash_tables(2), crash_ttl_reuse_ops(), d(6, 8)));
     let mut u = disk(3, true, false);
     u.uring = true;
     v.push(crash_suite("crash-uring-v3", u, crash_tables(3), crash_core_ops(), d(3, 4)));
